@@ -66,13 +66,28 @@ func VerifH_C04_BlockstoreLifecycle() {
 	}
 	rts, rerr := rw.Roots()
 	vAssert("roots", rerr == nil && len(rts) == 1 && rts[0].Equals(root))
-	how := vChoose("end", 2)
-	if how == 0 {
+	how := vChoose("end", 4)
+	switch how {
+	case 0:
 		vAssert("finalize-ok", rw.Finalize() == nil)
 		vCover("finalized", true)
-	} else {
+	case 1:
 		rw.Discard()
 		vCover("discarded", true)
+	default:
+		// FinalizeReadOnly keeps the store open for reading only; it is ended by Close, or by a
+		// Finalize, which is "FinalizeReadOnly and Close": whatever the latter reports about the
+		// repeated finalization, the store is closed afterwards
+		vAssert("finalize-read-only-ok", rw.FinalizeReadOnly() == nil)
+		got, gerr := rw.Get(ctx, puts[0].c)
+		vAssert("read-only-still-reads", gerr == nil && got != nil)
+		if how == 2 {
+			vAssert("close-ok", rw.Close() == nil)
+			vCover("finalize-read-only-then-close", true)
+		} else {
+			rw.Finalize()
+			vCover("finalize-read-only-then-finalize", true)
+		}
 	}
 	before, ok := vFSReadFile(path)
 	vAssert("file-readable", ok)
